@@ -352,6 +352,7 @@ func cmdCheck(args []string) {
 	only := fs.String("only", "", "only run harnesses whose name contains this")
 	jobTimeout := fs.Int("job-timeout-s", 1500, "wall-clock limit per job (a job hitting it is inconclusive)")
 	verbose := fs.Bool("v", false, "verbose")
+	summary := fs.String("summary", "", "write a per-shape summary of violation ids (for differential self-checks)")
 	if len(args) < 1 {
 		fmt.Println("usage: gosym check <ID> [--tier quick|thorough]")
 		os.Exit(2)
@@ -477,6 +478,40 @@ func cmdCheck(args []string) {
 	wg.Wait()
 	jobs = allJobs
 
+	if *summary != "" {
+		// per shape: sorted set of violated assertion ids (known and new); used to diff merge vs --no-merge
+		per := map[string]map[string]bool{}
+		for i, r := range results {
+			k := fmt.Sprintf("%s%v", jobs[i].Harness, jobs[i].Args)
+			if per[k] == nil {
+				per[k] = map[string]bool{}
+			}
+			for _, v := range r.Violations {
+				per[k][v.Kind+":"+v.ID+":"+v.KnownID] = true
+			}
+			if r.EngineError != "" {
+				per[k]["engine-error"] = true
+			}
+			for why := range r.Inconclusive {
+				per[k]["inconclusive:"+why] = true
+			}
+		}
+		var keys []string
+		for k := range per {
+			keys = append(keys, k)
+		}
+		sort.Strings(keys)
+		var sb strings.Builder
+		for _, k := range keys {
+			var ids []string
+			for v := range per[k] {
+				ids = append(ids, v)
+			}
+			sort.Strings(ids)
+			fmt.Fprintf(&sb, "%s %v\n", k, ids)
+		}
+		os.WriteFile(*summary, []byte(sb.String()), 0o644)
+	}
 	// aggregate
 	ev := newEvidence(id, *tier, seed, spec)
 	exit := 0
